@@ -5,6 +5,12 @@ usage: python -m symx.conc_runner <tasks.json> <results.jsonl>
 """
 from __future__ import annotations
 
+import sys as _sys
+try:
+    _sys.set_int_max_str_digits(0)
+except AttributeError:
+    pass
+
 import importlib
 import json
 import os
